@@ -138,18 +138,79 @@ def invoke_real(it, fv, args, kw):
 # ------------------------------------------------------------------------------------------ proof + model query driver
 _engine_discharge = E.discharge
 RETRY_SEEDS = (0, 1, 2)
+NEEDS = {}          # formula id -> set of fact tags the obligation is allowed to use ('def', 'sorted'); absent: everything
+
+
+def need(f, *tags):
+    """proof engineering: this obligation is discharged WITHOUT the tagged facts it does not list (dropping hypotheses is
+    sound).  Tags: 'def' = definitions of GE/GT (they unfold into coordinate quantifiers), 'sorted' = argsort order facts."""
+    if z3.is_expr(f):
+        NEEDS[f.get_id()] = (f, set(tags))
+    return f
+
+
+EXPECT_OPEN = {}    # formula id -> formula: obligations recorded as open known findings (their proof query is not expected to succeed)
+
+
+def expect_open(f):
+    if z3.is_expr(f):
+        EXPECT_OPEN[f.get_id()] = f
+    return f
+
+
+def _needs_of(formula):
+    if not z3.is_expr(formula):
+        return None
+    e = NEEDS.get(formula.get_id())
+    if e is None and z3.is_or(formula) and formula.num_args() == 2:
+        e = NEEDS.get(formula.arg(0).get_id())        # the residual obligation `f or in_finding_class` built by pyvc.verify
+    return e[1] if e is not None else None
+
+
+def _discharge_once(run, formula, npc, nax, timeout_ms, extra):
+    t0 = time.time()
+    s = z3.Solver()
+    s.set('timeout', timeout_ms)
+    allowed = _needs_of(formula)
+    tags = {}
+    tags.update(getattr(run, 'np_fact_tags', {}))
+    tags.update(getattr(run, 'c11_fact_tags', {}))
+    for c in (run.pc if npc is None else run.pc[:npc]):
+        s.add(c)
+    for c in (run.axioms if nax is None else run.axioms[:nax]):
+        tg = tags.get(c.get_id()) if z3.is_expr(c) else None
+        if allowed is not None and npc is None and tg is not None and tg not in allowed:
+            continue
+        s.add(c)
+    for c in extra:
+        s.add(c)
+    lits = pm.all_str_lits()
+    if len(lits) > 1:
+        s.add(z3.Distinct(*lits))
+    s.add(z3.Not(formula) if not isinstance(formula, bool) else z3.BoolVal(not formula))
+    r = s.check()
+    dt = time.time() - t0
+    if r == z3.unsat:
+        return 'unsat', None, dt
+    if r == z3.sat:
+        return 'sat', s.model(), dt
+    return 'unknown', s.reason_unknown(), dt
 
 
 def _discharge_with_retries(run, formula, npc=None, nax=None, timeout_ms=10000, extra=()):
-    """z3's quantifier instantiation is sensitive to term numbering; an `unknown` is retried with other random seeds
-    (an `unknown` never becomes a verdict, so retrying only reduces undecided results)."""
+    """engine.discharge with (1) the relevance filter above and (2) retries: z3's quantifier instantiation is sensitive to
+    term numbering; an `unknown` is retried with other random seeds (an `unknown` never becomes a verdict, so retrying
+    only reduces undecided results)."""
     total = 0.0
     last = None
+    if z3.is_expr(formula) and formula.get_id() in EXPECT_OPEN:
+        # an open known finding: one short attempt (the residual obligation gets the full budget)
+        return _discharge_once(run, formula, npc, nax, min(timeout_ms, 1500), extra)
     for k, seed in enumerate(RETRY_SEEDS):
         if k:
             z3.set_param('smt.random_seed', seed)
         try:
-            v, m, dt = _engine_discharge(run, formula, npc, nax, timeout_ms=timeout_ms if k == 0 else max(timeout_ms // 2, 2000), extra=extra)
+            v, m, dt = _discharge_once(run, formula, npc, nax, timeout_ms if k == 0 else max(timeout_ms // 2, 2000), extra)
         finally:
             if k:
                 z3.set_param('smt.random_seed', 0)
@@ -881,7 +942,7 @@ def lot_entry(d):
             run.ghost['c11.src1'] = z3.K(z3.IntSort(), z3.IntVal(0))
             run.ghost['c11.src3'] = z3.K(z3.IntSort(), z3.IntVal(0))
             run.np_defer_facts = True
-            run.c11 = dict(metrics=metrics, roles=LOT_ROLES, sk=sk, req=req, mlen=None if sz is None else sz[1], pin_n=None if sz is None else sz[0])
+            run.c11 = dict(nan_finding_open=LOT_NAN_OPEN, metrics=metrics, roles=LOT_ROLES, sk=sk, req=req, mlen=None if sz is None else sz[1], pin_n=None if sz is None else sz[0])
             cls = ModuleInfo.get(SVC).classes['VizierServicer']
             return it.invoke(E.FuncVal(cls.mod, cls.methods['ListOptimalTrials'], cls), [svc, req, None], {})
         return entry
@@ -960,6 +1021,8 @@ def lot_post(d):
         obs.append((pre + '.iff.spec_is_reported', z3.Implies(z3.And(hyp0, spec_reported(g, raw, i0), K(c1)), QE(nr, lambda j: w(j) == i0))))
         obs.append((pre + '.order', z3.Implies(z3.And(j0 >= 0, j0 < j1, j1 < nr), w(j0) < w(j1))))
         obs.append((pre + '.no_nan_objective', z3.Implies(in_r, nan_free(ra[j0]))))
+        if g.get('nan_finding_open'):
+            expect_open(obs[-1][1])
         return obs
     return post
 
@@ -1002,6 +1065,7 @@ def lot_replay(d):
 
 
 LOT_ROLES = None
+LOT_NAN_OPEN = False
 
 
 # ------------------------------------------------------------------------------------------ 4. FastParetoOptimalAlgorithm
@@ -1033,8 +1097,10 @@ def row_preds(run, rootA, rootP, cofs, d):
         GT = z3.Function('GT!%d' % i, z3.IntSort(), z3.IntSort(), z3.BoolSort())
         x, y = z3.Int('x!pd'), z3.Int('y!pd')
         hi = norm_sum(cofs, d)
-        run.axiom(z3.ForAll([x, y], GE(x, y) == QA(hi, lambda k: xreal.ge(rootA(x, k), rootP(y, k)), lo=cofs), patterns=[GE(x, y)]))
-        run.axiom(z3.ForAll([x, y], GT(x, y) == QE(hi, lambda k: xreal.gt(rootA(x, k), rootP(y, k)), lo=cofs), patterns=[GT(x, y)]))
+        for df in (z3.ForAll([x, y], GE(x, y) == QA(hi, lambda k: xreal.ge(rootA(x, k), rootP(y, k)), lo=cofs), patterns=[GE(x, y)]),
+                   z3.ForAll([x, y], GT(x, y) == QE(hi, lambda k: xreal.gt(rootA(x, k), rootP(y, k)), lo=cofs), patterns=[GT(x, y)])):
+            run.axiom(df)
+            run.__dict__.setdefault('c11_fact_tags', {})[df.get_id()] = 'def'
         cache[key] = (GE, GT, rootA, rootP)
     return cache[key][0], cache[key][1]
 
@@ -1252,7 +1318,7 @@ def fast_optimal_entry(sz):
         else:
             t = sz[2]
         P = fresh_points(run, 'P', n, d)
-        run.c11 = dict(P=P, n=n, d=d, threshold=t)
+        run.c11 = dict(P=P, n=n, d=d, threshold=t, finding_open=FAST_FINDING_OPEN)
         if sz is not None:
             run.c11['bounds'] = (sz[0], sz[0])
         return it.call(it.getattr(fast_self(t), 'is_pareto_optimal'), [P.copy()], {})
@@ -1293,7 +1359,7 @@ def fast_post(pre, kind):
         if len(calls) != 3 or len(sorts) != (2 if kind == 'against' else 1):
             return obs + [iff]
         # ---- the divide-and-conquer path: proof script (Appendix F); every step is an obligation (cut rule)
-        L = lambda name, f: (pre + '.' + name, f, 'lemma')
+        L = lambda name, f, *tags: (pre + '.' + name, need(f, *tags), 'lemma')       # default: neither definitions nor order facts
         t, t2, a, y = z3.Int('t!fp'), z3.Int('t2!fp'), z3.Int('a!fp'), z3.Int('y!fp')
         pp, pq = sorts[0][1], sorts[0][2]
         up, lo, cr = calls
@@ -1309,19 +1375,19 @@ def fast_post(pre, kind):
             SA0 = lambda a_: A.at(ap(a_), 0)
             GE1 = cr['GE']
             obs += [
-                L('lemma.split_below', z3.ForAll([t], z3.Implies(z3.And(t >= 0, t < sp_), xreal.le(S0(t), v)), patterns=[pp(t)])),
-                L('lemma.split_above', z3.ForAll([t], z3.Implies(z3.And(t >= sp_, t < nz), xreal.gt(S0(t), v)), patterns=[pp(t)])),
-                L('lemma.against_below', z3.ForAll([a], z3.Implies(z3.And(a >= 0, a < ds_), xreal.le(SA0(a), v)), patterns=[ap(a)])),
-                L('lemma.against_above', z3.ForAll([a], z3.Implies(z3.And(a >= ds_, a < mz), xreal.gt(SA0(a), v)), patterns=[ap(a)])),
+                L('lemma.split_below', z3.ForAll([t], z3.Implies(z3.And(t >= 0, t < sp_), xreal.le(S0(t), v)), patterns=[pp(t)]), 'sorted'),
+                L('lemma.split_above', z3.ForAll([t], z3.Implies(z3.And(t >= sp_, t < nz), xreal.gt(S0(t), v)), patterns=[pp(t)]), 'sorted'),
+                L('lemma.against_below', z3.ForAll([a], z3.Implies(z3.And(a >= 0, a < ds_), xreal.le(SA0(a), v)), patterns=[ap(a)]), 'sorted'),
+                L('lemma.against_above', z3.ForAll([a], z3.Implies(z3.And(a >= ds_, a < mz), xreal.gt(SA0(a), v)), patterns=[ap(a)]), 'sorted'),
                 L('lemma.upper_against_beats_lower_point_in_coordinate_0',
                   z3.ForAll([t, a], z3.Implies(z3.And(t >= 0, t < sp_, a >= ds_, a < mz), xreal.gt(SA0(a), S0(t))), patterns=[z3.MultiPattern(pp(t), ap(a))])),
                 L('lemma.lower_against_cannot_dominate_upper_point',
-                  z3.ForAll([t, a], z3.Implies(z3.And(t >= sp_, t < nz, a >= 0, a < ds_), z3.Not(GEf(ap(a), pp(t)))), patterns=[GEf(ap(a), pp(t))])),
+                  z3.ForAll([t, a], z3.Implies(z3.And(t >= sp_, t < nz, a >= 0, a < ds_), z3.Not(GEf(ap(a), pp(t)))), patterns=[GEf(ap(a), pp(t))]), 'def'),
                 # Appendix F lemma (ii): an upper `against` row dominates a lower point iff it is >= in the coordinates 1..d-1
                 L('lemma.cross_dominance_drops_coordinate_0',
                   z3.ForAll([t, a], z3.Implies(z3.And(t >= 0, t < sp_, a >= ds_, a < mz),
                                                z3.And(GE1(ap(a), pp(t)) == GEf(ap(a), pp(t)), z3.Implies(GE1(ap(a), pp(t)), GTf(ap(a), pp(t))))),
-                            patterns=[GE1(ap(a), pp(t)), GEf(ap(a), pp(t))])),
+                            patterns=[GE1(ap(a), pp(t)), GEf(ap(a), pp(t))]), 'def'),
                 # (the hypothesis GE(a, y) keeps y in the body: z3 drops unused bound variables together with their patterns)
                 L('lemma.against_is_permuted', z3.ForAll([a, y], z3.Implies(z3.And(a >= 0, a < mz, GEf(a, y)), z3.And(aq(a) >= 0, aq(a) < mz, ap(aq(a)) == a)),
                                                          patterns=[GEf(a, y)])),
@@ -1336,7 +1402,7 @@ def fast_post(pre, kind):
             # the clean-split step (Appendix F, lemma (i)) holds only without ties in coordinate 0
             strict_sorted = L('lemma.lower_point_cannot_dominate_upper_point_without_ties',
                               z3.Or(tie, z3.ForAll([t, t2], z3.Implies(z3.And(t >= 0, t < sp_, t2 >= sp_, t2 < nz), z3.Not(GEf(pp(t), pp(t2)))),
-                                                   patterns=[GEf(pp(t), pp(t2))])))
+                                                   patterns=[GEf(pp(t), pp(t2))])), 'def', 'sorted')
         obs += [
             L('step.position', z3.Implies(rng, z3.And(t0 >= 0, t0 < nz, pp(t0) == c))),
             L('step.result_upper', z3.Implies(z3.And(rng, t0 >= sp_), res.at(c) == gU(t0))),
@@ -1352,10 +1418,16 @@ def fast_post(pre, kind):
         ]
         if strict_sorted is not None:
             obs.append(strict_sorted)
-        obs.append((pre + '.step.upper.dominated_is_dominated_in_part.pointwise',
-                    z3.ForAll([a1], z3.Implies(z3.And(rng, t0 >= sp_, a1 >= 0, a1 < zi(m), body(a1, c)), z3.Not(gU(t0))), patterns=[GEf(a1, c)]), 'lemma'))
-        obs.append((pre + '.step.upper.dominated_is_dominated_in_part', z3.Implies(z3.And(rng, t0 >= sp_, gU(t0)), spec), 'lemma'))
+        if kind == 'optimal' and g.get('finding_open'):
+            expect_open(iff[1])
+        obs.append(L('step.upper.dominated_is_dominated_in_part.pointwise',
+                     z3.ForAll([a1], z3.Implies(z3.And(rng, t0 >= sp_, a1 >= 0, a1 < zi(m), body(a1, c)), z3.Not(gU(t0))), patterns=[GEf(a1, c)])))
+        obs.append(L('step.upper.dominated_is_dominated_in_part', z3.Implies(z3.And(rng, t0 >= sp_, gU(t0)), spec)))
+        if kind == 'optimal' and g.get('finding_open'):
+            expect_open(obs[-1][1])
+            expect_open(obs[-2][1])
         # the conclusion is a propositional combination of the steps above
+        need(iff[1])
         return obs + [iff]
     return post
 
@@ -1382,7 +1454,12 @@ def check_fast_against(chk, tier, strict):
        timeout_ms=8000 if tier == 'quick' else 60000).run()
 
 
+FAST_FINDING_OPEN = False
+
+
 def check_fast_optimal(chk, tier):
+    global FAST_FINDING_OPEN
+    FAST_FINDING_OPEN = fast_known(chk) is not None
     fast_register(FAST_OP)
     pre = 'C11.Fast.is_pareto_optimal'
     Fn(chk, tier, FAST_OP, fast_optimal_entry, fast_post(pre, 'optimal'), replay_of=replay_points('fast_optimal'), known=fast_known(chk),
@@ -1473,7 +1550,9 @@ def check_list_optimal_d(chk, tier, d):
         return
     tag = '[d=%d]' % d
     rn = support_rename('C11.ListOptimalTrials')
+    global LOT_NAN_OPEN
     known = lot_known(d) if chk.finding_for('C11.ListOptimalTrials.no_nan_objective') else None
+    LOT_NAN_OPEN = known is not None
     Fn(chk, tier, LOT, lot_entry(d), lot_post(d), replay_of=lot_replay(d), known=known,
        bounded_sizes=[(2, max(d, 1)), (3, max(d, 1))] if d else [(2, 1)],
        rename=(lambda n, rn=rn, tag=tag: rn(n) + tag), workers=3, expect_paths=3,
